@@ -272,10 +272,15 @@ func R9SQLSchema(c *Ctx) {
 				arg := bound[i]
 				ln := lastName(arg)
 				t := pk.TypesInfo.TypeOf(arg)
-				// name agreement (where the bound expression names a field/variable)
+				// name agreement (where the bound expression names a field/variable). A local variable is followed
+				// through its single definition: `id := int(AgentID)` stands for AgentID, so hoisting or renaming a
+				// local does not matter; only a chain that ends in a differently named field or parameter is a mismatch.
 				if ln != "" && !strings.EqualFold(ln, col) && !nameAlias(ln, col) {
 					if _, isLit := ast.Unparen(arg).(*ast.BasicLit); !isLit {
-						mism = append(mism, fmt.Sprintf("column %s is bound from %s", col, ExprStr(arg)))
+						agree, judged := chainNameAgrees(pk, s.fd, arg, col, 0)
+						if !agree && judged {
+							mism = append(mism, fmt.Sprintf("column %s is bound from %s", col, ExprStr(arg)))
+						}
 					}
 				}
 				// affinity: remember which columns receive Go strings
@@ -911,4 +916,78 @@ func totalLen(m map[string][]token.Pos) int {
 		n += len(v)
 	}
 	return n
+}
+
+// chainNameAgrees follows a bound expression through single-definition locals. agree: some name on the chain
+// matches the column. judged: the chain ended in something whose name is schema-level (a field or a parameter),
+// so a mismatch means something; a chain that ends in an unnamed computation is not judged.
+func chainNameAgrees(pk *packages.Package, fd *ast.FuncDecl, e ast.Expr, col string, depth int) (agree, judged bool) {
+	if depth > 4 {
+		return false, false
+	}
+	e = ast.Unparen(e)
+	if u, ok := e.(*ast.UnaryExpr); ok {
+		e = ast.Unparen(u.X)
+	}
+	match := func(n string) bool { return n != "" && (strings.EqualFold(n, col) || nameAlias(n, col)) }
+	switch x := e.(type) {
+	case *ast.SelectorExpr:
+		return match(x.Sel.Name), true
+	case *ast.CallExpr:
+		if len(x.Args) > 0 {
+			// conversions and wrappers: judged by their (last) argument, like lastName; a parse/format call by its first
+			if a, j := chainNameAgrees(pk, fd, x.Args[len(x.Args)-1], col, depth+1); a || j {
+				return a, j
+			}
+			return chainNameAgrees(pk, fd, x.Args[0], col, depth+1)
+		}
+		return false, false
+	case *ast.Ident:
+		if match(x.Name) {
+			return true, true
+		}
+		obj, _ := pk.TypesInfo.Uses[x].(*types.Var)
+		if obj == nil {
+			return false, false
+		}
+		// parameter?
+		if fd.Type.Params != nil {
+			for _, f := range fd.Type.Params.List {
+				for _, n := range f.Names {
+					if pk.TypesInfo.Defs[n] == types.Object(obj) {
+						return false, true
+					}
+				}
+			}
+		}
+		// local: its single definition
+		var def ast.Expr
+		n := 0
+		ast.Inspect(fd.Body, func(m ast.Node) bool {
+			as, ok := m.(*ast.AssignStmt)
+			if !ok {
+				return true
+			}
+			for i, l := range as.Lhs {
+				id, ok := l.(*ast.Ident)
+				if !ok {
+					continue
+				}
+				if pk.TypesInfo.Defs[id] == types.Object(obj) || pk.TypesInfo.Uses[id] == types.Object(obj) {
+					n++
+					if len(as.Rhs) == len(as.Lhs) {
+						def = as.Rhs[i]
+					} else if len(as.Rhs) == 1 {
+						def = as.Rhs[0]
+					}
+				}
+			}
+			return true
+		})
+		if n != 1 || def == nil {
+			return false, false
+		}
+		return chainNameAgrees(pk, fd, def, col, depth+1)
+	}
+	return false, false
 }
